@@ -145,7 +145,7 @@ def _union(run: Run, prog: Program, model: Model) -> None:
         ("a | any(b1, b2)", lambda: [plain("A"), anyu(plain("B1"), plain("B2"))], ["A", "B1", "B2"]),
     ]
     for label, mk, want in ucases:
-        it = Interp(prog, model, unroll=2)
+        it = Interp(prog, model, unroll=2, max_depth=12)
         it.max_recursion = 3   # type: ignore
 
         def run1(i: Interp) -> V:
@@ -190,7 +190,7 @@ def _union(run: Run, prog: Program, model: Model) -> None:
         ("any(B1) | A1  (left operand already a union)", lambda: [anyv(plain("B1")), plain("A1")], ["B1", "A1"]),
     ]
     for label, mk, want in cases:
-        it2 = Interp(prog, model, unroll=2)
+        it2 = Interp(prog, model, unroll=2, max_depth=14)
         it2.max_recursion = 4   # type: ignore
 
         def run2(i: Interp) -> V:
@@ -198,6 +198,7 @@ def _union(run: Run, prog: Program, model: Model) -> None:
             return i.call_function(call, mk(), {}, self_val=s)
         ps = it2.run_paths(run2)
         probs = []
+        opaque: List[str] = []
         ok = 0
         for p in ps:
             # only paths where plain members are not any-schemas (members named A*/B*/C* are plain tokens)
@@ -213,6 +214,9 @@ def _union(run: Run, prog: Program, model: Model) -> None:
             missing = [w for w in want if w not in toks]
             dup = [w for w in want if toks.count(w) > 1]
             nested = [t for t in toks if t.startswith("AnySchema<") and "types=" in t]
+            if missing and any("call(" in t for t in toks):
+                opaque.append(f"the result contains an unevaluated call ({[t for t in toks if 'call(' in t][0][:60]})")
+                continue
             if missing:
                 probs.append(f"alternatives {missing} lost (got {toks})")
             if dup:
@@ -223,6 +227,8 @@ def _union(run: Run, prog: Program, model: Model) -> None:
         if probs:
             run.violated("FLATTEN", label, call.loc, "; ".join(sorted(set(probs)))[:300],
                          witness=f"schema.{label} rejects a value one of its alternatives accepts")
+        elif opaque:
+            run.undecided("FLATTEN", label, call.loc, opaque[0])
         elif ok:
             run.holds("FLATTEN", label, call.loc, f"result alternatives = {want}", nontrivial=True)
         else:
